@@ -109,7 +109,7 @@ impl Expr {
     /// places where redundant parentheses / whitespace are added
     fn text(&self, rng: &mut Rng, extra: u64, top: bool) -> String {
         let ws = |rng: &mut Rng| -> String {
-            if extra > 0 && rng.chance(extra, 100) { (*rng.pick(&[" ", "  ", "\t", "\n", " \t "])).to_string() } else { String::new() }
+            if extra > 0 && rng.chance(extra, 100) { (*rng.pick(&[" ", "  ", "\t", "\n", " \t ", "\r\n", "\u{c}", "\u{a0}", "\u{2003}\u{b}"])).to_string() } else { String::new() }
         };
         let core = match self {
             Expr::P(p) => p.text(),
@@ -134,7 +134,7 @@ fn seq_text(es: &[Expr], rng: &mut Rng, extra: u64) -> String {
     let mut s = String::new();
     for (i, e) in es.iter().enumerate() {
         if i > 0 { s.push(' '); }
-        if extra > 0 && rng.chance(extra, 100) { s.push_str(*rng.pick(&[" ", "\t", "\n"])); }
+        if extra > 0 && rng.chance(extra, 100) { s.push_str(*rng.pick(&[" ", "\t", "\n", "\r", "\u{85}", "\u{3000}"])); }
         s += &e.text(rng, extra, true);
     }
     if extra > 0 && rng.chance(extra, 100) { s.push(' '); }
@@ -513,7 +513,7 @@ fn main() {
     let thorough = std::env::var("VERIF_TIER").map(|t| t == "thorough").unwrap_or(false);
     let mut rng = Rng::new(seed_from_env());
     let pre = preamble();
-    let mut o = Out { sh: Shards::new(&out, &pre, "pcase", "verdicts", if thorough { 60 } else { 150 }), sum: Summary::default(), seen: Default::default(), distinct: 0 };
+    let mut o = Out { sh: Shards::new(&out, &pre, "pcase", "verdicts", if thorough { 100 } else { 150 }), sum: Summary::default(), seen: Default::default(), distinct: 0 };
     let (p6, p3) = (preds6(), preds3());
     let (hm, hw) = (hops_main(), hops_wild());
     let r = &mut rng;
@@ -531,6 +531,14 @@ fn main() {
               "\u{e9}", "1 \u{1f600}", "x", "1-2-3", "0*", "(0?)*", "(0*)+", "((0?)+)*", "(1? | 2*)+ 0", "1#2"] {
         case_parse(&mut o, s);
         case_pat_ex(&mut o, s, &hm, 3);
+    }
+    // whitespace other than space/tab/newline between tokens (CRLF line ends, form feed, NBSP, ...)
+    for (a, b) in [("1 2", "1 \r2"), ("1 2", "1 2\r\n"), ("1 2", "1\r\n2\r\n"), ("(1|2)+ 3", "(1\u{c}|\u{b}2)\u{a0}+\u{2003}3\u{85}"), ("1", "\u{3000}1\u{1680}"), ("1 2", "1\u{2028}2")] {
+        case_equiv(&mut o, a, b);
+    }
+    // every character of the ranges that contain Unicode White_Space, as a token separator
+    for cp in (0u32..0x100).chain(0x1670..0x1690).chain(0x1ff8..0x2068).chain(0x2ff8..0x3008).chain([0xfeff, 0x180e, 0x200b, 0x10000]) {
+        if let Some(c) = char::from_u32(cp) { case_parse(&mut o, &format!("1{c}2")); }
     }
     for p in [Pred { isd: 1, asn: None, ifs: Ifs::Either(3) }, Pred { isd: 1, asn: None, ifs: Ifs::Both(0, 0) }, Pred { isd: 1, asn: None, ifs: Ifs::Any },
               Pred { isd: 65535, asn: Some((1 << 48) - 1), ifs: Ifs::Both(65535, 65535) }, Pred { isd: 0, asn: Some(0), ifs: Ifs::Either(0) },
@@ -577,7 +585,8 @@ fn main() {
     for d in ops { for o1 in ops { for p1 in &p6 { for o2 in ops { for p2 in &p6 { for o3 in ops { for p3e in &p6 {
         acls3.push(Acl { entries: vec![(o1, *p1), (o2, *p2), (o3, *p3e)], default_allow: d }); } } } } } } }
     if !thorough { r.shuffle(&mut acls3); acls3.truncate(n); }
-    for a in acls.iter().chain(acls3.iter()) { case_acl_ex(&mut o, a, &hm, acl_len); }
+    for a in acls.iter() { case_acl_ex(&mut o, a, &hm, acl_len); }
+    for a in acls3.iter() { case_acl_ex(&mut o, a, &hm, 4); }
     for a in acls.iter().step_by(if thorough { 1 } else { 5 }) { case_acl_ex(&mut o, a, &hw, 3); }
 
     // patterns: every expression to nesting depth 2 over 3 predicates, depth 1 over 6, and
@@ -590,17 +599,20 @@ fn main() {
     if thorough {
         for e in exprs_upto(&p6, 2) { pats.push(vec![e]); }
         let mut d3 = exprs_upto(&p3[..2], 3);
-        r.shuffle(&mut d3); d3.truncate(4 * n);
+        r.shuffle(&mut d3); d3.truncate(2 * n);
         for e in d3 { pats.push(vec![e]); }
     } else {
         let mut d3 = exprs_upto(&p3[..2], 3);
         r.shuffle(&mut d3); d3.truncate(n / 2);
         for e in d3 { pats.push(vec![e]); }
     }
+    let n_small = exprs_upto(&p3, 2).len();
     for (k, es) in pats.iter().enumerate() {
         let s = seq_text(es, r, 0);
         let alpha = if k % 7 == 6 { &hw } else { &hm };
-        case_pat_ex(&mut o, &s, alpha, pat_len);
+        // thorough: the depth-2 expressions over 3 predicates against every sequence up to 6
+        let big = es.len() == 1 && es[0].depth() == 2 && k >= n_small;   // depth 2 over 6 predicates
+        case_pat_ex(&mut o, &s, alpha, if thorough && k < n_small { 6 } else if big { 4 } else { pat_len });
         o.sum.count(&format!("pat_ex.depth.{}", es.iter().map(|e| e.depth()).max().unwrap_or(0)));
     }
 
